@@ -44,8 +44,7 @@ var classProp = map[string]string{
 	"envelope-without-commit": "C29", "envelope-mismatch": "C29", "duplicate-envelope": "C29",
 	// an acknowledged commit whose post-commit handoff never happened was dropped:
 	// by the pipeline (C29 conservation) or, after a Stop began, by the stop (C41)
-	"missing-envelope": "both",
-	"acked-append-reported-failed": "both", "result-never-delivered": "both",
+	"missing-envelope": "both", "acked-append-reported-failed": "both", "result-never-delivered": "both",
 	"admitted-after-stop": "C41", "stop-returned-before-drain": "C41", "work-cancelled": "C41", "drain-stuck": "C41", "admitted-future-not-terminal": "C41",
 }
 
@@ -66,21 +65,21 @@ func (q *aworld) flushViolations() {
 }
 
 type acfg struct {
-	Channels, Callers, Ops, MaxBatch int
-	UseRouter                        bool
+	Channels, Callers, Ops, MaxBatch  int
+	UseRouter                         bool
 	Inflight, EffectPool, AdvancePool int
-	Shards, Admission, Backlog       int
-	Handoff                          int
-	Coalesce                         time.Duration
-	PostCommit                       int // 0 delivery, 1 none, 2 delivery+persist-after, 3 persist-after only
-	Fenced                           bool
-	Deadlines                        bool
-	NoFaults                         bool
-	FAppendFail, FUnknown, FRoute    bool
-	FShort, FLookupErr, FAuth        bool
-	FDeliverErr, FResolve            bool
-	Stops, StopAfter                 int
-	DupBias, ConflictBias            int
+	Shards, Admission, Backlog        int
+	Handoff                           int
+	Coalesce                          time.Duration
+	PostCommit                        int // 0 delivery, 1 none, 2 delivery+persist-after, 3 persist-after only
+	Fenced                            bool
+	Deadlines                         bool
+	NoFaults                          bool
+	FAppendFail, FUnknown, FRoute     bool
+	FShort, FLookupErr, FAuth         bool
+	FDeliverErr, FResolve             bool
+	Stops, StopAfter                  int
+	DupBias, ConflictBias             int
 }
 
 func drawCfg(r *simkit.Run) acfg {
@@ -207,6 +206,7 @@ func newWorld(r *simkit.Run, c acfg) *aworld {
 		envSeen: map[uint64]int{}, persistSeen: map[uint64]int{}, identCount: map[string]int{}, keyCount: map[string]int{},
 		faulted: map[string]bool{}, firstResult: map[string][2]uint64{}}
 	q.nextMsgID.Store(1000)
+	q.life, q.lifeCancel = context.WithCancel(context.Background())
 	for i := 0; i < c.Channels; i++ {
 		q.chans = append(q.chans, &chanModel{idx: i, id: ca.ChannelID{ID: fmt.Sprintf("g%d", i), Type: 2}, large: i%2 == 1, byKey: map[string]int{}})
 	}
@@ -266,6 +266,8 @@ func (q *aworld) teardown() {
 		q.r.Infra("teardown: group stop: %v", err)
 	}
 	cancel()
+	// nobody may stay blocked on a future the pipeline lost: the callers' contexts end here
+	q.lifeCancel()
 	for i := 0; i < 500 && (q.opsInFlight() > 0 || q.stopsInFlight() > 0); i++ {
 		simkit.Wait()
 		q.collectDone()
@@ -683,7 +685,7 @@ func (q *aworld) startOp(cl *caller) {
 	}
 	descr := make([]string, len(o.items))
 	batch := make([]ca.SendBatchItem, len(o.items))
-	ctx := context.Background()
+	ctx := q.life // a caller's session context: cancellable, ended only at teardown
 	if o.deadline > 0 {
 		// every simulator-initiated sleep is a multiple of 50 us; a per-operation
 		// skew keeps this deadline from ever tying with another timer
@@ -729,12 +731,12 @@ func (q *aworld) startOp(cl *caller) {
 			o.admitted = true
 			o.mu.Unlock()
 		} else {
-			f, err := q.g.SubmitLocal(context.Background(), target, batch)
+			f, err := q.g.SubmitLocal(q.life, target, batch)
 			o.mu.Lock()
 			o.admitted, o.submitErr = err == nil, err
 			o.mu.Unlock()
 			if err == nil {
-				res, _ = f.Wait(context.Background())
+				res, _ = f.Wait(q.life)
 			}
 		}
 		o.mu.Lock()
@@ -780,7 +782,7 @@ func (q *aworld) startStop() {
 	q.stops = append(q.stops, st)
 	q.r.Logf("  stop%d timeout=%v admitted_incomplete=%d", st.id, st.timeout, len(q.admittedIncomplete()))
 	go func() {
-		ctx := context.Background()
+		ctx := q.life
 		cancel := func() {}
 		switch {
 		case st.timeout == 0:
@@ -1088,7 +1090,7 @@ func (q *aworld) finalPhase() {
 				}
 				q.r.Logf("  final stop%d", final.id)
 				go func(st *stopOp) {
-					err := q.g.Stop(context.Background())
+					err := q.g.Stop(q.life)
 					st.mu.Lock()
 					st.err, st.done = err, true
 					st.mu.Unlock()
